@@ -8,6 +8,8 @@
 //   ES plane[6] par[8: d0 d1 d2 cz maxFz kxy cxy vSettle] mus muk K p0[3] station[3] pose[15]
 //   HZ nS vt onGround hsBody[15] hsMat[5] hsFrame[6] { radius mat[5] off[3] pose[15] } * nS
 //   BK vt onGround hsBody[15] hsMat[5] hsFrame[6]  half[3] mat[5] off[6] pose[15]
+//   ME vt onGround plateBody[15] plateMat[5] plateFrame[6] plate(0 half space,1 mesh brick) plateThickness  rad res mat[5] thickness off[6] pose[15]
+//        (triangle-mesh sphere; CompliantContactSubsystem's elastic-foundation generator: ContactForce with a patch moment)
 // pose[15] = body-fixed XYZ angles[3], p[3], w[3], v[3], unused[3];   frame[6] = angles[3], p[3]
 #include "Simbody.h"
 #include <cstdio>
@@ -155,8 +157,10 @@ static void runES() {
 
 // Hertz circular (spheres on a half space and on each other) and brick / half space through ContactTrackerSubsystem +
 // CompliantContactSubsystem
-static void runCC(bool brick) {
-    const int nS = brick ? 1 : (int)nx(); const Real vt = nx(); const bool onGround = nx() != 0;
+// kind 0: spheres (HZ), 1: brick (BK), 2: triangle-mesh sphere on a half space (plate 0) or on a mesh brick (plate 1), elastic-foundation generator (ME)
+static void runCC(int kindCC) {
+    const bool brick = kindCC == 1, meshMode = kindCC == 2;
+    const int nS = (brick || meshMode) ? 1 : (int)nx(); const Real vt = nx(); const bool onGround = nx() != 0;
     Pose hsPose = npose(); Real hm[5]; for (int i = 0; i < 5; ++i) hm[i] = nx(); Transform hsFrame = nframe();
     MultibodySystem system; SimbodyMatterSubsystem matter(system);
     ContactTrackerSubsystem tracker(system); CompliantContactSubsystem compliant(system, tracker); GeneralForceSubsystem forces(system);
@@ -165,15 +169,22 @@ static void runCC(bool brick) {
     MobilizedBody hsBody = matter.updGround();
     std::vector<MobilizedBody::Free> bs; std::vector<Pose> poses;
     std::vector<Body::Rigid> infos;
+    const int plate = meshMode ? (int)nx() : 0; const Real plateThickness = meshMode ? nx() : 0;
+    ContactSurface plateSurf = plate == 1
+        ? ContactSurface(ContactGeometry::TriangleMesh(PolygonalMesh::createBrickMesh(Vec3(0.6, 0.5, 0.6), 3)), ContactMaterial(hm[0], hm[1], hm[2], hm[3], hm[4]), plateThickness)
+        : ContactSurface(ContactGeometry::HalfSpace(), ContactMaterial(hm[0], hm[1], hm[2], hm[3], hm[4]));
     if (!onGround) {
         Body::Rigid hb(MassProperties(1.0, Vec3(0), Inertia(1)));
-        hb.addContactSurface(hsFrame, ContactSurface(ContactGeometry::HalfSpace(), ContactMaterial(hm[0], hm[1], hm[2], hm[3], hm[4])));
+        hb.addContactSurface(hsFrame, plateSurf);
         hsBody = MobilizedBody::Free(matter.updGround(), Transform(), hb, Transform());
     } else
-        matter.updGround().updBody().addContactSurface(hsFrame, ContactSurface(ContactGeometry::HalfSpace(), ContactMaterial(hm[0], hm[1], hm[2], hm[3], hm[4])));
+        matter.updGround().updBody().addContactSurface(hsFrame, plateSurf);
     for (int i = 0; i < nS; ++i) {
         Body::Rigid bb(MassProperties(1.0, Vec3(0), Inertia(1)));
-        if (brick) {
+        if (meshMode) {
+            const Real rad = nx(); const int res = (int)nx(); Real m[5]; for (int k = 0; k < 5; ++k) m[k] = nx(); const Real th = nx(); Transform off = nframe();
+            bb.addContactSurface(off, ContactSurface(ContactGeometry::TriangleMesh(PolygonalMesh::createSphereMesh(rad, res)), ContactMaterial(m[0], m[1], m[2], m[3], m[4]), th));
+        } else if (brick) {
             Vec3 half = nv(); Real m[5]; for (int k = 0; k < 5; ++k) m[k] = nx(); Transform off = nframe();
             bb.addContactSurface(off, ContactSurface(ContactGeometry::Brick(half), ContactMaterial(m[0], m[1], m[2], m[3], m[4])));
         } else {
@@ -243,7 +254,7 @@ int main() {
         std::string t; while (is >> t) A.push_back(std::strtod(t.c_str(), 0));
         try {
             if (k == "HC") runHC(); else if (k == "SS") runSS(); else if (k == "ES") runES();
-            else if (k == "HZ") runCC(false); else if (k == "BK") runCC(true);
+            else if (k == "HZ") runCC(0); else if (k == "BK") runCC(1); else if (k == "ME") runCC(2);
             else std::printf("?unknown\n");
         } catch (const std::exception& e) { std::string m = e.what(); for (auto& ch : m) if (ch == '\n') ch = ' '; std::printf("!exception %s\n", m.c_str()); }
         std::fflush(stdout);
